@@ -5,7 +5,11 @@ from fractions import Fraction
 from . import gen, model, run, props
 
 PLANS = {
-    "C08": {"twin": ["TwinPoly", "TwinNear"], "model_inv": ["C08_Cardinal"]},
+    # "at uniformly spaced instants 1/ratio input samples apart": the spacing predicates of the contract are
+    # evaluated on the same traces (the one-hot/polynomial twins take the instants from the probe instance, so
+    # a frame evaluated at a wrong instant is invisible to them - seeded change C08c)
+    "C08": {"twin": ["TwinPoly", "TwinNear"], "model_inv": ["C08_Cardinal"],
+            "contract": ["C06_Increasing", "C06_StepInRange"]},
     "C15": {"twin": ["KernelEq", "TwinCtl", "TwinNear"],
             "model_inv": ["C15_LoopPairs", "C15_ResultExact", "C15_BranchDelay"]},
 }
@@ -24,6 +28,11 @@ def with_id(op, i):
 
 DY_RATIOS = [Fraction(8), Fraction(4), Fraction(2), Fraction(16), Fraction(1), Fraction(1, 2), Fraction(8, 3),
              Fraction(4, 3), Fraction(16, 5), Fraction(1, 4), Fraction(8, 7), Fraction(32, 5)]
+# strong downsampling: steps of 8..32 input frames per output frame put the first position of a chunk
+# anywhere in the kept history (every start index -16..-1 relative to the chunk), seeded change C08c
+DY_LOW = [Fraction(1, 8), Fraction(1, 10), Fraction(1, 11), Fraction(1, 12), Fraction(2, 21), Fraction(2, 23),
+          Fraction(4, 45), Fraction(1, 16), Fraction(2, 19), Fraction(4, 37), Fraction(1, 9), Fraction(1, 13),
+          Fraction(1, 32), Fraction(2, 25)]
 
 
 def c08_scripts(rng, tier):
@@ -33,19 +42,22 @@ def c08_scripts(rng, tier):
     for _ in range(n):
         for deg in ["Septic", "Quintic", "Cubic", "Linear", "Nearest"]:
             for kind in ("FastFixedIn", "FastFixedOut"):
-                r = rng.choice(DY_RATIOS)
+                r = rng.choice(DY_RATIOS) if rng.random() < 0.6 else rng.choice(DY_LOW)
                 T = rng.choice([64, 64, 32])
                 chunk = rng.choice([8, 16, 32, 64, 100]) if kind == "FastFixedIn" else rng.choice([16, 64, 128, 333])
+                if r < Fraction(1, 7):
+                    chunk = rng.choice([16, 32, 64, 100]) if kind == "FastFixedIn" else rng.choice([1, 2, 3, 5, 8])
                 base = {"op": "new", "kind": kind, "T": T, "ch": 1, "r": gen.rj(r), "maxrel": gen.rj(Fraction(1)),
                         "degree": deg, "chunk": chunk, "seed": 3, "taus_cap": 100000}
-                hots = sorted(rng.sample(range(9, 60), 3))
+                low = r < Fraction(1, 7)
+                hots = sorted(rng.sample(range(9, 200), 6)) if low else sorted(rng.sample(range(9, 60), 3))
                 a = dict(base); a["signal"] = "index"; a["T"] = 64
                 ops = [with_id(a, 0)]
                 for k, h in enumerate(hots):
                     b = dict(base); b["signal"] = "impulse"; b["imp"] = [h]; b["vals"] = True
                     ops.append(with_id(b, 1 + k))
                     ops.append({"op": "note", "twin": "poly", "a": 0, "b": 1 + k, "c": h, "degree": deg})
-                need_in = 80
+                need_in = 260 if low else 80
                 per_in = chunk if kind == "FastFixedIn" else max(1, int(chunk / float(r)))
                 calls = min(120, need_in // per_in + 3)
                 for _c in range(calls):
@@ -60,8 +72,10 @@ def c08_scripts(rng, tier):
     for _ in range({"quick": 25, "thorough": 300}[tier]):
         for deg, d in degs.items():
             for kind in ("FastFixedIn", "FastFixedOut"):
-                r = rng.choice(gen.RATIOS)
+                r = rng.choice(gen.RATIOS) if rng.random() < 0.7 else rng.choice(DY_LOW + [Fraction(3, 31), Fraction(5, 53)])
                 chunk = rng.choice([16, 64, 100, 256])
+                if r < Fraction(1, 7) and kind == "FastFixedOut":
+                    chunk = rng.choice([1, 2, 3, 5, 8, 16])
                 base = {"op": "new", "kind": kind, "ch": 1, "r": gen.rj(r), "maxrel": gen.rj(Fraction(2)),
                         "degree": deg, "chunk": chunk, "seed": 3}
                 dd = rng.randrange(0, d + 1)
@@ -132,6 +146,8 @@ def check(prop, tier, seed, replay=None):
     run.build_harness()
     if replay:
         ok, out = run.replay_hard(replay, plan["twin"], wd, module="TraceTwin")
+        if ok and plan.get("contract"):
+            ok, out = run.replay_hard(replay, plan["contract"], wd)
         print(out[-3000:] if not ok else "replay: all predicates hold on " + replay)
         if not ok:
             print("VIOLATION property=%s replay=%s" % (prop, replay))
@@ -153,6 +169,14 @@ def check(prop, tier, seed, replay=None):
     r = run.validate_traces(pairs, plan["twin"], wd, module="TraceTwin", tag=prop)
     if prop == "C08":
         run.pair_stats(r, cov, prop)
+    if plan.get("contract"):
+        r2 = run.validate_traces(pairs, plan["contract"], wd, module="TraceContract", tag=prop + "c")
+        r["viols"] += r2["viols"]
+        r["states"] += r2["states"]
+        r["transitions"] += r2["transitions"]
+        cov["contract_antecedents"] = r2.get("counts", {})
+        if r2.get("counts", {}).get("withTaus", 0) == 0:
+            raise run.ToolError("vacuous: no call with evaluation instants in the C08 traces")
     cov["states"] += r["states"]
     cov["transitions"] += r["transitions"]
     cov["traces_validated_against_impl"] = r["traces"]
@@ -180,7 +204,7 @@ def check(prop, tier, seed, replay=None):
                                "events": [{k: (e.get(k) if k not in ("taus", "vals") else e.get(k)[:4])
                                            for k in ("ev", "id", "res", "nout", "dig", "names", "outside_zero", "taus", "vals")
                                            if k in e} for e in evs[1:6]]})
-    cov["predicates"] = plan["twin"] + plan["model_inv"]
+    cov["predicates"] = plan["twin"] + plan["model_inv"] + plan.get("contract", [])
     cov["rule"] = ("states/transitions: TLC on Kernels.tla (symbolic execution of every kernel's loop and reduction for "
                    "each L; cardinal check of every coefficient table) plus TLC trace validation of one-hot runs")
     wall = time.time() - t0
